@@ -9,7 +9,7 @@ use std::sync::Arc;
 
 pub const MODES: [Mode; 3] = [Mode::St, Mode::Mt, Mode::Frame];
 
-pub fn check_case(rep: &Report, case: &Case, labels: &[String], local: &mut Local) {
+pub fn check_case(rep: &Report, case: &Case, labels: &[String], local: &mut Local, thorough: bool) {
     let samples = case.input.samples();
     local.evals += 1;
     for l in labels {
@@ -17,8 +17,17 @@ pub fn check_case(rep: &Report, case: &Case, labels: &[String], local: &mut Loca
     }
     let mut st_bytes: Option<Vec<u8>> = None;
     for mode in MODES {
+        if mode == Mode::Mt && !subject::mt_in_scope(thorough, labels) {
+            continue;
+        }
         let (_, bytes) = match subject::encode_bytes(case, &samples, mode) {
             Ok(x) => x,
+            Err(subject::EncFail::TooBig(_)) => {
+                // size defects are C09's subject; a stream that is not serialised cannot be judged here
+                local.outcome(&format!("{}:skipped_giant_stream", mode.name()));
+                local.count("giant_streams_not_serialised", 1);
+                continue;
+            }
             Err(e) => {
                 local.outcome(&format!("{}:fail:{}", mode.name(), e.class()));
                 rep.violation(
@@ -180,7 +189,7 @@ pub fn run(args: &Args, rep: &Arc<Report>) {
         if rep.want_sample() {
             rep.sample(case.json());
         }
-        check_case(rep, case, labels, local);
+        check_case(rep, case, labels, local, thorough);
     });
     rep.add_rule(
         "each case is encoded three ways (single-thread, multi-thread with real threads, frame by frame) and must decode to exactly the input with claxon 0.4.3 and with the RFC 9639 reference decoder; non-trivial = at least one fixed/LPC subframe in the stream",
